@@ -304,8 +304,13 @@ impl Array {
                     .to_addr_usize()
             {
                 // NOTE: The "length" property is the first element.
-                borrowed_object.properties_mut().storage[0] = JsValue::new(len);
-                return Ok(());
+                // Lowering the length has to delete the elements at and above it, which only
+                // `ArraySetLength` does: the shortcut is for an unchanged or growing length.
+                let old_len = borrowed_object.properties().storage[0].as_number();
+                if old_len.is_some_and(|old_len| len as f64 >= old_len) {
+                    borrowed_object.properties_mut().storage[0] = JsValue::new(len);
+                    return Ok(());
+                }
             }
         }
 
